@@ -300,7 +300,14 @@ LEAN_TY = {'rat': 'Rat', 'nat': 'Nat', 'bool': 'Bool', 'sc': 'α'}
 # (property, name, file, regex with one group (re.S), occurrence index, params [(rust atom, lean name, type)], result type)
 DJ = 'src/algorithms/shortest_path/dijkstra.rs'
 EV = 'src/algorithms/centrality/eigenvector.rs'
+WC = 'src/algorithms/components/weak_connectivity.rs'
 SITES = [
+    # ---- C10: bfs_equal_size_partitions ----
+    ('C10', 'partMaxSize', WC, r'let partition_max_size = (.*?);', 0, [('graph.number_of_nodes()', 'n', 'nat'), ('num_partitions', 'k', 'nat')], 'nat'),
+    ('C10', 'partFullInner', WC, r'if (partitions\[partition\]\.len\(\) [=!<>]+ partition_max_size) \{', 0,
+     [('partitions[partition].len()', 'len', 'nat'), ('partition_max_size', 'maxSize', 'nat')], 'bool'),
+    ('C10', 'partFullOuter', WC, r'if (partitions\[partition\]\.len\(\) [=!<>]+ partition_max_size) \{', 1,
+     [('partitions[partition].len()', 'len', 'nat'), ('partition_max_size', 'maxSize', 'nat')], 'bool'),
     # ---- C18: eigenvector_centrality (generic-scalar mode) ----
     ('C18', 'start', EV, r'\.map\(\|n\| \(n\.name\.clone\(\), (.*?)\)\)\s*\.collect\(\);', 0, [('nnodes', 'nnodes', 'nat')], 'sc'),
     ('C18', 'unitWeight', EV, r'let w = match (.*?) \{\s*true => 1\.0,\s*false => edge\.weight,', 0,
